@@ -257,6 +257,9 @@ func (c *LocalActionsCache) FindMetadata(spec string) (*ActionMetadata, bool, er
 func (c *LocalActionsCache) readLocalActionMetadataFile(dir string) ([]byte, string, bool) {
 	for _, f := range []string{"action.yaml", "action.yml"} {
 		p := filepath.Join(dir, f)
+		if s, err := os.Stat(p); err != nil || !s.Mode().IsRegular() {
+			continue // Do not try to read devices, named pipes, ... Reading them may never end
+		}
 		if b, err := os.ReadFile(p); err == nil {
 			return b, f, true
 		}
